@@ -2,6 +2,12 @@ module verifharness
 
 go 1.14
 
-require github.com/cnotch/ipchub v0.0.0
+require (
+	github.com/cnotch/ipchub v0.0.0
+	github.com/cnotch/queue v0.0.0-20201224060551-4191569ce8f6
+	github.com/cnotch/xlog v0.0.0-20201208005456-cfda439cd3a0
+	github.com/gorilla/websocket v1.4.2
+	github.com/pixelbender/go-sdp v1.1.0
+)
 
 replace github.com/cnotch/ipchub => /repo
